@@ -3,7 +3,7 @@ handed to the implementation are exactly the rationals handed to the Coq model."
 import numpy as np
 
 KINDS = ["generic", "generic", "generic", "rankdef", "duprows", "zerorows", "allzero", "intties",
-         "illcond", "negative_lead", "sparseint", "sparseint", "nearrank", "nearrank", "localized", "localized"]
+         "illcond", "negative_lead", "sparseint", "sparseint", "nearrank", "nearrank", "localized", "localized", "faintrows", "commonmode"]
 
 
 def shape(rng, nmax=9, mmax=5):
@@ -55,6 +55,19 @@ def matrix(rng, n, m, kind=None):
         r = max(1, min(n, m) - int(rng.integers(1, 3)))
         B = (rng.integers(-4, 5, size=(n, r)) @ rng.integers(-3, 4, size=(r, m))).astype(float) / 4.0
         B = B + rng.integers(-8, 9, size=(n, m)) / 2.0 ** 33
+    elif kind == "faintrows":
+        # independent sensors on wildly different scales (exact powers of two): some rows 2^-30 ... 2^-70 of the others
+        B = rng.integers(-40, 41, size=(n, m)) / 8.0
+        nstrong = 1 if rng.random() < 0.5 else int(rng.integers(1, max(2, min(n, m))))      # fewer strong sensors than ranked positions: faint ones get ranked too
+        strong = set(int(i) for i in rng.choice(n, size=min(nstrong, n), replace=False))
+        lo = 30 if rng.random() < 0.25 else 55
+        for i in range(n):
+            if i not in strong:
+                B[i] *= 2.0 ** -int(rng.integers(lo, 71))
+    elif kind == "commonmode":
+        # nearly parallel sensors: a dominant common component plus individual parts 2^-26 ... 2^-30 as large (well separated)
+        v = rng.integers(1, 9, size=m) / 2.0
+        B = np.outer(rng.integers(4, 9, size=n) / 4.0, v) + (rng.integers(-40, 41, size=(n, m)) / 8.0) * 2.0 ** -int(rng.integers(26, 31))
     elif kind == "localized":
         # modes with (nearly) disjoint supports: sensor rows that are zero in the leading modes
         B = np.zeros((n, m))
